@@ -317,6 +317,20 @@ impl<'ast> Visit<'ast> for TypeShareVisitor<'_> {
         syn::visit::visit_item_const(self, i);
     }
 
+    /// Unions have no representation in the target languages: report them
+    /// instead of leaving them out of the output without a word.
+    fn visit_item_union(&mut self, i: &'ast syn::ItemUnion) {
+        debug!("Visiting {}", i.ident);
+        if has_typeshare_annotation(&i.attrs) && self.target_os_accepted(&i.attrs) {
+            self.collect_result(Err(ParseError::UnsupportedType(format!(
+                "union {}",
+                i.ident
+            ))));
+        }
+
+        syn::visit::visit_item_union(self, i);
+    }
+
     // Track potentially skipped modules.
     // fn visit_item_mod(&mut self, i: &'ast syn::ItemMod) {
     //     if let Some(target_os) = self.target_os.as_ref() {
